@@ -231,7 +231,8 @@ def main():
 
     # ---- paseto-core +- serde, paseto-json +- claims: build + run a tiny probe
     td = os.path.join(FP, "target-full")
-    for feats in [(), ("serde",), ("json",), ("json", "claims"), ("serde", "json", "claims")]:
+    cj = {}
+    for feats in [(), ("serde",), ("json",), ("json", "claims"), ("serde", "json", "claims"), ("json-default",)]:
         name = "+".join(feats) if feats else "none"
         crate = os.path.join(FP, "corejson")
         lock = os.path.join(crate, "Cargo.lock")
@@ -248,9 +249,21 @@ def main():
         text = open(logp, errors="replace").read()
         if r.returncode != 0 or "COREJSON-OK" not in text:
             viol(f"C19|core+json|{'build-or-run-failed'}:{name}", {"features": list(feats), "first_error": first_error(logp)})
+        cj[name] = dict(l[2:].split("=", 1) for l in text.splitlines() if l.startswith("T ") and "=" in l)
+    # what the generic JSON wrappers accept and produce must be the same in every configuration that has them
+    refname = "json-default"
+    for name, t in cj.items():
+        if name == refname or not t or not cj.get(refname):
+            continue
+        for k, v in t.items():
+            rv = cj[refname].get(k)
+            if rv is not None and rv != v:
+                viol(f"C19|core+json|{name}|differs-from-default-build:{k.rsplit('.', 1)[0]}", {"features": name, "line": k, "this_build": v[:200], "default_build": rv[:200]})
+        count("corejson.transcripts-compared")
+        count("corejson.transcript-lines-compared", len(t))
 
     rep["distinct"] = len(hashes)
-    rep["info"]["rule"] = ("configurations = (crate, closed feature set); quick: none, all, each single feature and four mixed sets per crate (%d sets), thorough: all %d distinct closures of the 9 flags, each requested through its smallest generating subset so that the crate's own implication edges are what makes it build; each configuration is built (release) and its probe run on fixed keys and the reference build's corpus; the reference build is the crate with its *default* features (cargo's implicit `default`), the nine flags spelled out with default-features = false are one of the compared configurations; every transcript line (incl. 25 deterministic signatures per crate) must equal the reference build's; plus paseto-core +- serde and paseto-json +- claims; distinct = distinct (crate, closure)" % (len(quick_sets()), len(closed)))
+    rep["info"]["rule"] = ("configurations = (crate, closed feature set); quick: none, all, each single feature and four mixed sets per crate (%d sets), thorough: all %d distinct closures of the 9 flags, each requested through its smallest generating subset so that the crate's own implication edges are what makes it build; each configuration is built (release) and its probe run on fixed keys and the reference build's corpus; the reference build is the crate with its *default* features (cargo's implicit `default`), the nine flags spelled out with default-features = false are one of the compared configurations; every transcript line (incl. 25 deterministic signatures per crate) must equal the reference build's; plus paseto-core +- serde and paseto-json +- claims (and paseto-json with its default features as reference): builds, runs, and the transcript of what the generic Json<T> wrappers decode / encode for ~40 hostile inputs is equal in every configuration; distinct = distinct (crate, closure)" % (len(quick_sets()), len(closed)))
     with open(outp, "w") as f:
         json.dump(rep, f)
     with open(outp + ".hashes", "wb") as f:
